@@ -239,7 +239,8 @@ def eigs(f, v0, k=1, which='SR', ncv=10, maxiter=None, tol=1e-13, hermitian=Fals
     Y = []
     for it in range(k):
         sit = vr[:, it]
-        Y.append(V[0].add(*V[1:], amplitudes=sit, **kwargs))
+        y = V[0].add(*V[1:], amplitudes=sit, **kwargs)
+        Y.append(y / y.norm())  # Krylov vectors lose orthonormality when v0 is (almost) an eigenvector; keep Ritz vectors normalized
     return val[:k], Y
 
 
